@@ -949,7 +949,75 @@ func (fe *FuncEnc) callSiteAsserts(v ssa.Value, c *ssa.CallCommon, st *State, ar
 				env.vars[fmt.Sprintf("arg%d", i)] = EV{T: a, Typ: argVals[i].Type()}
 			}
 		}
+		// a clause applies at the call sites where every local it names is in scope (has a
+		// definition that dominates the call); elsewhere it says nothing (NOTE)
+		if missing := fe.unresolvedAtCall(env, cs.Clause.Expr); missing != "" {
+			fe.note("callsite clause %s does not apply at the call of %s at %s: local %q is not in scope there", cs.Clause.Label, cs.Callee, fe.eng.prog.Fset.Position(pos), missing)
+			continue
+		}
 		goal := fe.evalBool(env, cs.Clause.Expr, cs.Clause.Where)
 		fe.oblige(st, "callsite", cs.Clause.Label, goal, pos, "call-site assertion at "+cs.Callee+": "+cs.Clause.Src)
 	}
+}
+
+// unresolvedAtCall returns the first identifier of e that is a local of the function (has debug
+// references) but has no definition dominating the call, or "".
+func (fe *FuncEnc) unresolvedAtCall(env *Env, e CExpr) string {
+	locals := map[string]bool{}
+	for _, d := range fe.debugRefs {
+		if obj := debugObj(d); obj != nil {
+			if _, isVar := obj.(*types.Var); isVar {
+				locals[obj.Name()] = true
+			}
+		}
+	}
+	missing := ""
+	var walk func(x CExpr, bound map[string]bool)
+	walk = func(x CExpr, bound map[string]bool) {
+		if missing != "" || x == nil {
+			return
+		}
+		switch t := x.(type) {
+		case *CIdent:
+			if bound[t.Name] || !locals[t.Name] {
+				return
+			}
+			if _, isParam := fe.params[t.Name]; isParam {
+				return
+			}
+			if _, ok := env.vars[t.Name]; ok {
+				return
+			}
+			if _, ok := fe.resolveLocalAtCall(env, t.Name); !ok {
+				missing = t.Name
+			}
+		case *CBinary:
+			walk(t.X, bound)
+			walk(t.Y, bound)
+		case *CUnary:
+			walk(t.X, bound)
+		case *CSel:
+			walk(t.X, bound)
+		case *CIndex:
+			walk(t.X, bound)
+			walk(t.I, bound)
+		case *CCall:
+			for _, a := range t.Args {
+				walk(a, bound)
+			}
+		case *COld:
+			walk(t.X, bound)
+		case *CQuant:
+			nb := map[string]bool{}
+			for k := range bound {
+				nb[k] = true
+			}
+			for _, v := range t.Vars {
+				nb[v.Name] = true
+			}
+			walk(t.Body, nb)
+		}
+	}
+	walk(e, map[string]bool{})
+	return missing
 }
